@@ -250,7 +250,9 @@ pub mod implementations {
                 bail!("vec_op +push operations require only a single item on the operating stack")
             }
 
-            let new_val = ctx.pop().unwrap();
+            // an element is a value: a pointer into another list or object (the result of `l[i]`
+            // or `o.f`, also when a function returned it) is resolved before it is stored
+            let new_val = ctx.pop().unwrap().move_out_of_heap_primitive()?;
 
             let primitive_with_flags: PrimitiveFlagsPair = ctx
                 .load_local(&op_name[1..])
